@@ -28,6 +28,7 @@ type VerifCache interface {
 	VerifDir() map[string]int64
 	VerifJanitorInterval() time.Duration
 	VerifShift(d time.Duration)
+	VerifMemoryCap() int64
 }
 
 func (j *cacheJanitor[MetadataT]) verifCycle() {
@@ -80,6 +81,12 @@ func (c *MemoryCache[MetadataT]) VerifShift(d time.Duration) {
 		e.meta.LastAccess = e.meta.LastAccess.Add(-d)
 		e.meta.Expires = e.meta.Expires.Add(-d)
 	}
+}
+
+func (c *MemoryCache[MetadataT]) VerifMemoryCap() int64 {
+	c.mu.RLock()
+	defer c.mu.RUnlock()
+	return c.memoryCap
 }
 
 // ---- file backend
@@ -141,3 +148,5 @@ func (c *FileCache[MetadataT]) VerifShift(d time.Duration) {
 		m.Expires = m.Expires.Add(-d)
 	}
 }
+
+func (c *FileCache[MetadataT]) VerifMemoryCap() int64 { return -1 }
